@@ -315,9 +315,63 @@ class Check:
             self.violation(v, sub or tool, binary=tool)
         return res, d
 
+    # -- composite properties (C09, C11, C16): search tools of other properties are re-used with a filter
+    def tool_filtered(self, tool, args, sub=None, keep=None, timeout=3000):
+        """Runs a search tool; a violation counts for THIS property when keep(v) holds and it is not an open finding that
+        is listed for other properties only (those are reported by the checks of the properties that list them)."""
+        d = os.path.join(self.outdir, sub or tool)
+        res, err = run_tool(tool, args, d, timeout)
+        if res is None:
+            self.broken.append("harness: " + err)
+            return None, d
+        self.cov["evaluations"] += res.get("evaluations", 0)
+        self.cov["distinct_nontrivial"] += res.get("distinct_nontrivial", 0)
+        if res.get("rule"):
+            self.rules.append("[%s] %s" % (res.get("engine", tool), res["rule"]))
+        for smp in res.get("samples", [])[:2]:
+            if len(self.cov["samples"]) < 12:
+                self.cov["samples"].append({"tool": sub or tool, "case": smp})
+        allknown = json.load(open(os.path.join(ROOT, "known_findings.json")))["findings"]
+        skipped_other, skipped_filter = 0, 0
+        for v in res.get("violations", []):
+            sig = v.get("signature", "")
+            if keep is not None and not keep(v):
+                skipped_filter += 1
+                continue
+            if match_known(sig, self.known, tool) is None and match_known(sig, allknown, tool) is not None:
+                skipped_other += 1
+                continue
+            self.violation(v, sub or tool, binary=tool)
+        self.cov["tools"].append({"tool": sub or tool, "args": " ".join(str(a) for a in args), "evaluations": res.get("evaluations", 0),
+                                  "distinct_nontrivial": res.get("distinct_nontrivial", 0), "not_judged": res.get("not_judged", 0),
+                                  "violations": len(res.get("violations", [])), "violations_outside_this_property": skipped_filter,
+                                  "open_findings_of_other_properties": skipped_other, "histograms": res.get("histograms"), "extra": res.get("extra")})
+        return res, d
+
+    def replay_any(self):
+        """Replay of a stored failing input with the tool that produced it."""
+        v = self.replay_file["failing_input"]
+        tool = v.get("tool", "")
+        binary = {"replay": v.get("binary", "")}.get(tool, tool).split(":")[0]
+        o = v.get("options", {}) or {}
+        wj = {"input": v.get("input", ""), "input_hex": v.get("input_hex", ""), "options": o}
+        if binary == "jsoracle":
+            wj["strict"] = o.get("strict") == "true"
+        elif binary == "cssoracle":
+            wj["inline"] = o.get("inline") == "true"
+        elif binary == "svgoracle":
+            wj["mode"] = o.get("mode", "doc")
+        elif binary == "htmloracle":
+            wj["fragment"] = v.get("fragment", o.get("fragment", "true") != "false")
+            wj["registry"] = v.get("registry", o.get("registry", "none"))
+        w = os.path.join(self.outdir, "witness.json")
+        json.dump(wj, open(w, "w"))
+        res, d = self.tool(binary, ["-witness", w], sub="replay:" + binary)
+        return self.finish()
+
     def violation(self, v, tool, binary=None):
         e = match_known(v.get("signature", ""), self.known, binary)
-        v = dict(v, tool=tool)
+        v = dict(v, tool=tool, binary=binary or tool)
         if e is not None:
             self.known_hits.setdefault(e["id"], (e, v))
         else:
